@@ -247,7 +247,9 @@ def run_c01(chk):
     # deep-nesting probes: every shape x depths around the cap and far beyond, in a fresh process each
     shapes = [lambda d: "PRINT " + "(" * d + "1" + ")" * d, lambda d: "IF 1 THEN " * d + "PRINT 1",
               lambda d: "X = " + "ABS(" * d + "1" + ")" * d, lambda d: "A(" * d + "1" + ")" * d + " = 1",
-              lambda d: "PRINT " + "(" * d, lambda d: "10 PRINT " + "(" * d + "1" + ")" * d]
+              lambda d: "PRINT " + "(" * d, lambda d: "10 PRINT " + "(" * d + "1" + ")" * d,
+              # runs of unary operators: 15 x the depth (no parenthesis or IF in between, so no nesting guard on the way)
+              lambda d: "PRINT " + "-" * (15 * d) + "1", lambda d: "X = " + "NOT " * (15 * d) + "1"]
     depths = [10, 61, 62, 63, 64, 65, 200, 5000] + ([100000] if chk.tier == "thorough" else [20000])
     for si, shape in enumerate(shapes):
         for d in depths:
